@@ -258,9 +258,23 @@ def dp_large_layer_cases(draw):
     min-max: a pruning of states that is only valid for one objective shows here (expensive: about half a second per case)."""
     k = draw(st.sampled_from([3, 3, 3, 4]))
     n = draw(st.integers(9, 10)) if k == 3 else draw(st.integers(7, 8))
-    values = S.splitmix(draw(st.integers(0, 2 ** 40)), n, 0, draw(st.sampled_from([60, 100, 200])))
+    seed, hi = draw(st.integers(0, 2 ** 40)), draw(st.sampled_from([60, 100, 200]))
+    values = S.splitmix(seed, n, 0, hi)
+    profile = "dp-large-layers"
+    if draw(st.integers(0, 2)) > 0:
+        # the instance, out of 80 candidates, on which the objectives DISAGREE most about the best partition (relative gap between the
+        # smallest largest-sum among the partitions with the best smallest sum and the min-max optimum): the inputs that tell an optimum
+        # for the stated objective from an optimum - or a bound - for another one
+        best_gap = 0
+        for j in range(1, 81):
+            cand = S.splitmix(seed + 7919 * j, n, 0, hi)
+            vecs = oracles.sum_vectors(cand, k)
+            best_min, minmax = max(v[0] for v in vecs), min(v[-1] for v in vecs)
+            gap = (min(v[-1] for v in vecs if v[0] == best_min) - minmax) / max(1, minmax)
+            if gap > best_gap:
+                best_gap, values, profile = gap, cand, "dp-large-layers-conflicting-objectives"
     spec = draw(st.sampled_from(["maxmin", "maxmin", "diff", f"klargest:{draw(st.integers(1, k))}", f"ksmallest:{draw(st.integers(1, k))}", "minmax"]))
-    case = {"alg": "dp", "values": values, "numbins": k, "pres": "list", "nseed": 0, "profile": "dp-large-layers", "opts": {"objective": spec}}
+    case = {"alg": "dp", "values": values, "numbins": k, "pres": "list", "nseed": 0, "profile": profile, "opts": {"objective": spec}}
     if draw(st.integers(0, 2)) == 0:
         case["out"] = "Sums"
     return case
@@ -308,8 +322,8 @@ def legs(tier):
             strategy=nested_cases(), n_quick=1400, n_thorough=30000, valid=valid_deep, floor=0.1),
         Leg("dp-large-layers", evaluate,
             "hypothesis: dp with 3 bins x 9-10 items and 4 bins x 7-8 items (layers of more than a thousand states), objectives max-min, "
-            "difference, k-largest, k-smallest, min-max; same oracle and rule (about half a second per case: a handful in the quick tier, "
-            "thousands in the thorough tier)", strategy=dp_large_layer_cases(), n_quick=160, n_thorough=6000, valid=valid_dp_large, floor=0.2,
+            "difference, k-largest, k-smallest, min-max; two thirds of the inputs selected (by the oracle, out of 80 candidates) as the one "
+            "on which the objectives disagree most about the best partition; same oracle and rule (about half a second per case)", strategy=dp_large_layer_cases(), n_quick=160, n_thorough=6000, valid=valid_dp_large, floor=0.2,
             shards=16),
         Leg("two-way-large", evaluate,
             "hypothesis: two bins, 11-16 items (complete greedy <= 14), values 1..200 / 1..1000 / near-equal large / planted: beyond the "
